@@ -273,7 +273,7 @@ class Verifier:
 
         def work(ob):
             try:
-                dom = domain_for(ob.mode)
+                dom = domain_for(ob.mode, getattr(ob.run.dom, "specw", 520) if getattr(ob, "run", None) is not None else 520)
                 if ob.goal == "COVER":
                     text = dom.emit(ob.decl, ob.bounds, list(ob.hyps), False, slice_hyps=False)
                     r = smt.run_portfolio(text, timeout=min(self.timeout, 4), want_model=False, need=1, use_cache=False)
@@ -392,12 +392,12 @@ Verifier.discharge_ring = _discharge_ring
 _domcache = {}
 
 
-def domain_for(mode):
+def domain_for(mode, specw=520):
     from .domains import LiaDomain, BvDomain
     if mode == "lia":
         return LiaDomain()
     if mode == "bv":
-        return BvDomain()
+        return BvDomain(specw)
     if mode == "ring":
         from .ring import RingDomain
         return RingDomain()
